@@ -1,5 +1,240 @@
-(* Eval05.v — evaluation of C05 observations (stub: replaced when C05 is built). *)
-From Verif Require Import Base Sexp.
+(* Eval05.v — evaluation of C05 observations: generated deriveDeepCopy / deriveClone vs the
+   model (Copy/Model.v) and the specification (structurally equal to the source, nil-ness
+   reproduced, no memory in common with the source, source unchanged, writes invisible).
+
+   Labels in observed results (harness/internal/c05/drv_c05.go.txt):
+     0          zero-size object: no memory, never compared, never counted as aliasing;
+     L < FB     the address the input label L (of SRC or of the prior DST) was built at;
+     L >= FB    an address that does not occur in the inputs: allocated by the call.
+   The model runs with allocation counter FB, so its fresh labels are >= FB too; label
+   CLASSES are compared (the numbers of fresh labels are not). *)
+From Coq Require Import String.
+From Verif Require Import Base Sexp Go.Ty Go.Val Go.Equal Copy.Model Eval03.
 Open Scope string_scope.
 
-Definition eval05 (e : sexp) : verdict := bad_line.
+Definition FB : N := 1000000000.
+
+Definition lab_ok (rl ml : N) : bool :=
+  (N.eqb rl 0 || if N.leb FB rl then N.leb FB ml else N.eqb rl ml)%bool.
+
+(* observed value vs predicted value: same shape, same leaves bit for bit, same nil-ness,
+   same spare capacity, labels of the same class (input labels: the same label) *)
+Fixpoint match_val (r m : val) {struct r} : bool :=
+  let all2 := all2b (fun a b => match_val a b) in
+  match r, m with
+  | VBool a, VBool b => Bool.eqb a b
+  | VInt a, VInt b => Z.eqb a b
+  | VF n1 m1, VF n2 m2 => (Bool.eqb n1 n2 && N.eqb m1 m2)%bool
+  | VC a b c d, VC a' b' c' d' => (Bool.eqb a a' && N.eqb b b' && Bool.eqb c c' && N.eqb d d')%bool
+  | VStr a, VStr b => bytes_eqb a b
+  | VNilP, VNilP => true
+  | VNilS, VNilS => true
+  | VNilM, VNilM => true
+  | VPtr l v, VPtr l' v' => (lab_ok l l' && match_val v v')%bool
+  | VSl l es sp, VSl l' es' sp' => (lab_ok l l' && all2 es es' && all2 sp sp')%bool
+  | VMap l kvs, VMap l' kvs' =>
+      (lab_ok l l' && Nat.eqb (List.length kvs) (List.length kvs')
+       && forallb (fun kv => existsb (fun kv' => match_val (fst kv) (fst kv') && match_val (snd kv) (snd kv')) kvs') kvs)%bool
+  | VArr a, VArr b => all2 a b
+  | VSt a, VSt b => all2 a b
+  | _, _ => false
+  end.
+
+Definition memN (l : N) (ls : list N) : bool := existsb (N.eqb l) ls.
+Fixpoint nodupN (ls : list N) : bool :=
+  match ls with [] => true | l :: t => (negb (memN l t) && nodupN t)%bool end.
+Definition disjointN (a b : list N) : bool := forallb (fun l => negb (memN l b)) a.
+
+(* every allocation of the emitted code is a distinct object (zero-size ones excepted) *)
+Definition fresh_distinct (r : val) : bool :=
+  nodupN (filter (fun l => N.leb FB l) (labels r)).
+
+(* no pointer target, backing array or map of the result is one of the source *)
+Definition no_src_memory (src r : val) : bool :=
+  forallb (fun l => (N.eqb l 0 || negb (memN l (labels src)))%bool) (labels r).
+
+Definition all_fresh (r : val) : bool :=
+  forallb (fun l => (N.eqb l 0 || N.leb FB l)%bool) (labels r).
+
+Definition input_labels_ok (src dst : list N) : bool :=
+  (forallb (fun l => (N.ltb 0 l && N.ltb l FB)%bool) (src ++ dst)
+   && disjointN src dst && nodupN dst)%bool.
+
+Fixpoint val_sexp (v : val) : sexp :=
+  match v with
+  | VBool b => L [Sym "b"; of_bool b]
+  | VInt z => L [Sym "i"; Num z]
+  | VF n m => L [Sym "f"; of_bool n; Num (Z.of_N m)]
+  | VC a b c d => L [Sym "c"; of_bool a; Num (Z.of_N b); of_bool c; Num (Z.of_N d)]
+  | VStr s => L (Sym "s" :: map (fun b => Num (Z.of_N b)) s)
+  | VNilP => Sym "nilp" | VNilS => Sym "nils" | VNilM => Sym "nilm"
+  | VPtr l v' => L [Sym "p"; Num (Z.of_N l); val_sexp v']
+  | VSl l es sp => L [Sym "sl"; Num (Z.of_N l); L (map val_sexp es); L (map val_sexp sp)]
+  | VMap l kvs => L [Sym "m"; Num (Z.of_N l); L (map (fun kv => L [val_sexp (fst kv); val_sexp (snd kv)]) kvs)]
+  | VArr es => L (Sym "a" :: map val_sexp es)
+  | VSt es => L (Sym "st" :: map val_sexp es)
+  end.
+
+Definition res_sexp (r : res (val * N)) : sexp :=
+  match r with
+  | Ok (v, _) => L [Sym "ret"; val_sexp v]
+  | Pan => Sym "panic" | Unsup => Sym "unsupported" | Stuck => Sym "stuck"
+  end.
+
+Inductive real5 := RPanic | RRet (v : val) (same indep1 indep2 : bool) | RBad.
+Definition parse_real (e : sexp) : real5 :=
+  match e with
+  | Sym s => if String.eqb s "panic" then RPanic else RBad
+  | L [Sym _; v; L [Sym _; Num a; Num b; Num c]] =>
+      match parse_val v with
+      | Some v' => RRet v' (Z.eqb a 1) (Z.eqb b 1) (Z.eqb c 1)
+      | None => RBad
+      end
+  | _ => RBad
+  end.
+
+(* how the prior destination relates to the source at the root (coverage tag) *)
+Definition rel_tag (s d : val) : string :=
+  match s, d with
+  | VNilP, VNilP => "nilp<-nilp" | VNilP, VPtr _ _ => "nilp<-ptr"
+  | VPtr _ _, VNilP => "ptr<-nilp" | VPtr _ _, VPtr _ _ => "ptr<-ptr"
+  | VNilS, VNilS => "nils<-nils" | VNilS, VSl _ _ _ => "nils<-slice"
+  | VSl _ _ _, VNilS => "slice<-nils:make"
+  | VSl _ a _, VSl _ b sp =>
+      if Nat.ltb (List.length b) (List.length a) then
+        if Nat.leb (List.length a) (List.length b + List.length sp) then "slice-grow:reuse-spare" else "slice-grow:make"
+      else if Nat.ltb (List.length a) (List.length b) then "slice-shrink:reslice"
+      else "slice-same-length"
+  | VNilM, VNilM => "nilm<-nilm" | VNilM, VMap _ _ => "nilm<-map"
+  | VMap _ _, VNilM => "map<-nilm"
+  | VMap _ _, VMap _ [] => "map<-empty" | VMap _ _, VMap _ _ => "map<-populated"
+  | VArr _, _ => "array" | VSt _, _ => "struct"
+  | _, _ => "leaf"
+  end.
+
+Definition uses_label_of (ls : list N) (v : val) : bool := existsb (fun l => memN l ls) (labels v).
+Definition has_spare (v : val) : bool :=
+  (fix go (fuel : nat) (v : val) : bool :=
+     match fuel with O => false | S f =>
+       match v with
+       | VPtr _ v' => go f v'
+       | VSl _ es sp => (negb (match sp with [] => true | _ => false end) || existsb (go f) es)%bool
+       | VMap _ kvs => existsb (fun kv => go f (snd kv)) kvs
+       | VArr es => existsb (go f) es
+       | VSt es => existsb (go f) es
+       | _ => false
+       end
+     end) 8%nat v.
+
+Definition out_tag (m : res (val * N)) (dstl : list N) : string :=
+  match m with
+  | Ok (v, _) =>
+      (if negb (all_fresh v) then "keeps-dst-memory" else "all-fresh")
+      ++ (if uses_label_of dstl (match v with VPtr _ v' => v' | _ => VArr (match v with VSl _ es sp => es ++ sp | VMap _ kvs => map snd kvs | _ => [] end) end)
+          then "+inner-reuse" else "")
+      ++ (if has_spare v then "+spare" else "")
+  | Pan => "panic" | Unsup => "unsupported" | Stuck => "stuck"
+  end.
+
+Definition deref (v : val) : val := match v with VPtr _ v' => v' | _ => v end.
+
+(* which types the generator accepts for the three calls of the harness:
+     deriveDeepCopy(dst, src *T),  deriveDeepCopy(dst, src T) when T is a reference,  deriveClone(T).
+   [body] = the type is the referent of a helper deriveDeepCopy( *t ) (genStatement, pointer case);
+   [named] = the node sits directly under a type name. An unnamed struct that is not
+   assignable (and any unnamed struct as referent) is "unsupported". *)
+Fixpoint dc_sup_aux (body named : bool) (t : ty) {struct t} : bool :=
+  let all := fix all (l : list (bool * ty)) : bool :=
+               match l with [] => true | f :: l' => (dc_sup_aux false false (snd f) && all l')%bool end in
+  match t with
+  | TRef _ => true
+  | TN _ _ u => dc_sup_aux body true u
+  | TSt fs => if body then (named && all fs)%bool
+              else (can_copy t || (named && all fs))%bool
+  | TB _ => true
+  | TP rt => (can_copy rt || dc_sup_aux true false rt)%bool
+  | TSl et => (can_copy et || dc_sup_aux false false et)%bool
+  | TAr _ et => (can_copy t || dc_sup_aux false false et)%bool
+  | TM _ vt => dc_sup_aux false false vt
+  end.
+(* deriveDeepCopy( *T ) always; deriveDeepCopy(T) / deriveClone(T) go through genStatement(T) when T
+   is itself a pointer (its referent is then a helper body) *)
+Definition dc_sup (t : ty) : bool :=
+  (dc_sup_aux true false t
+   && match (match t with TN _ _ u => u | _ => t end) with
+      | TP rt => dc_sup_aux true false rt
+      | _ => true
+      end)%bool.
+
+Definition eval05 (e : sexp) : verdict :=
+  match e with
+  | L [Sym k; tys; xs; ys; real] =>
+      if (String.eqb k "dcp" || String.eqb k "dcd")%bool then
+        match parse_ty tys, parse_val xs, parse_val ys, parse_real real with
+        | Some t0, Some src, Some dst, (RPanic | RRet _ _ _ _) as rl =>
+            let t := if String.eqb k "dcp" then TP t0 else t0 in
+            let typed := (has_type [] t src && has_type [] t dst)%bool in
+            let m := deepcopy_top [] t dst src FB in
+            let inguard := (typed && input_labels_ok (labels src) (labels dst) && top_guard src dst)%bool in
+            {| v_known := typed;
+               v_model_ok := match m, rl with
+                             | Ok (mv, _), RRet rv _ _ _ => (match_val rv mv && fresh_distinct rv)%bool
+                             | Pan, RPanic => true
+                             | _, _ => false
+                             end;
+               v_spec_ok := match rl with
+                            | RRet rv a b c =>
+                                (match spec_eq [] t src rv with Some true => true | _ => false end
+                                 && no_src_memory src rv && a && b && c)%bool
+                            | _ => false
+                            end;
+               v_guard := inguard; v_model := res_sexp m;
+               v_tag := k ++ "/" ++ node_tag t0 ++ "/"
+                        ++ (if String.eqb k "dcp" then rel_tag (deref src) (deref dst) else rel_tag src dst)
+                        ++ "/" ++ out_tag m (labels dst) |}
+        | _, _, _, _ => bad_line
+        end
+      else bad_line
+  | L [Sym k; tys; xs; real] =>
+      if String.eqb k "clone" then
+        match parse_ty tys, parse_val xs, parse_real real with
+        | Some t, Some src, (RPanic | RRet _ _ _ _) as rl =>
+            let typed := has_type [] t src in
+            let m := clone_model [] t src FB in
+            let inguard := (typed && input_labels_ok (labels src) [])%bool in
+            {| v_known := typed;
+               v_model_ok := match m, rl with
+                             | Ok (mv, _), RRet rv _ _ _ => (match_val rv mv && fresh_distinct rv)%bool
+                             | Pan, RPanic => true
+                             | _, _ => false
+                             end;
+               v_spec_ok := match rl with
+                            | RRet rv a b c =>
+                                (match spec_eq [] t src rv with Some true => true | _ => false end
+                                 && no_src_memory src rv && all_fresh rv && a && b && c)%bool
+                            | _ => false
+                            end;
+               v_guard := inguard; v_model := res_sexp m;
+               v_tag := "clone/" ++ node_tag t ++ "/" ++ (if is_nilv src then "nil" else "non-nil") ++ "/" ++ out_tag m [] |}
+        | _, _, _ => bad_line
+        end
+      else bad_line
+  | L [Sym k; tys; Sym cls] =>
+      if String.eqb k "sup-dc" then
+        match parse_ty tys with
+        | Some t =>
+            let sup := dc_sup t in
+            let real_ok := String.eqb cls "ok" in
+            let real_err := String.eqb cls "generator-error" in
+            (* a crash or hang of the generator is C09's subject: not judged here *)
+            let crash := (String.eqb cls "panic" || String.eqb cls "timeout")%bool in
+            let ok := (crash || if sup then real_ok else real_err)%bool in
+            {| v_known := true; v_model_ok := ok; v_spec_ok := ok; v_guard := true;
+               v_model := Sym (if sup then "ok" else "generator-error");
+               v_tag := "support/" ++ (if crash then "generator-crash-see-C09"
+                                       else if sup then "supported" else "unsupported") |}
+        | None => bad_line
+        end
+      else bad_line
+  | _ => bad_line
+  end.
